@@ -9,6 +9,7 @@ import GIV.Lemmas.ParWorkInv
 import GIV.Lemmas.ParWorkRun
 import GIV.Lemmas.ParWorkDeadlock
 import GIV.Lemmas.ParWorkMeasure
+import GIV.Lemmas.ParWorkWake
 namespace GIV.C09
 open GIV.ParWork
 
@@ -160,5 +161,106 @@ example : Closed exCfg [0, 1] ∧ measure exCfg [0, 1] init0 = 70 := by
   intro x hx y hy
   simp only [exCfg] at hy
   split at hy <;> simp_all
+
+/-! ### no lost wake-up / work conservation -/
+
+/-- `Add` calls `Signal()` whenever `w.waiting > 0`: the regenerated test (`if w.waiting > 0 { w.wait.Signal() }`
+as the last statement of the guarded block) fires for every positive count, and in the model an `Add` of a
+new item made while `w.waiting > 0` appends the item and goes on to `Signal()`.
+(Only this direction: signalling more often is harmless.) -/
+theorem add_signals_when_waiting :
+    (∀ w : Int, 0 < w → (GIV.Gen.ParWork.signalWhenWaiting && GIV.Gen.ParWork.signalTest w) = true) ∧
+    (∀ (s : State) (t : Nat) (k : Cont) (x : Item), x ∉ s.added → 0 < s.waiting →
+      (addBody s t k x).pc t = .addSignal k ∧ (addBody s t k x).todo = s.todo ++ [x]) := by
+  have h1 : ∀ w : Int, 0 < w → (GIV.Gen.ParWork.signalWhenWaiting && GIV.Gen.ParWork.signalTest w) = true := by
+    intro w hw
+    simp [GIV.Gen.ParWork.signalWhenWaiting, GIV.Gen.ParWork.signalTest, hw]
+  refine ⟨h1, ?_⟩
+  intro s t k x hx hw
+  rw [addBody_pc, addBody_todo]
+  simp [addPc, hx, h1 s.waiting hw]
+
+/-- two runners are parked (`w.waiting = 2`) when `f 0` adds item 1: Add is about to call `Signal()` -/
+example : ∃ s, Reach exCfg3 s ∧
+    (decide (0 < s.waiting ∧ 1 ∉ s.added ∧ s.pc 0 = .inF 0 0 ∧ s.owner = none ∧
+      (addBody { s with owner := some 0 } 0 (.inF 0 0) 1).pc 0 = .addSignal (.inF 0 0))) = true :=
+  reach_of_run exCfg3 exWakeTrace.dropLast _ (by decide)
+
+/-- What the hypothesis of `no_lost_wakeup` means: the wait set of the condition variable consists exactly of
+the runners that are inside `Wait()` (program point `wake`: released the mutex, not yet re-acquired it) and
+for which no wake-up — `Signal`, `Broadcast` or spurious — is under way. -/
+theorem parked_unsignalled (c : Cfg) (hn : 1 ≤ c.n) (s : State) (h : Reach c s) (t : Nat) :
+    t ∈ s.waiters ↔ s.pc t = .wake ∧ t ∉ s.woken :=
+  waiters_iff (invL_reach hn h) (invW_reach add_signals_when_waiting.1 hn h) t
+
+example : ∃ s, Reach exCfg3 s ∧ (decide (2 ∈ s.waiters ∧ s.pc 2 = .wake ∧ s.pc 1 = .wake ∧ 1 ∈ s.woken)) = true :=
+  reach_of_run exCfg3 (exWakeTrace ++ [(0, .signal (some 1))]) _ (by decide)
+
+/-- `inFlight s` is 1 exactly when the current holder of the mutex is `Add` between its `append` and its
+`Signal()` (`addSignal`), or a runner between seeing `len(w.todo) != 0` and removing its item (`rand`);
+it is 0 otherwise, in particular when the mutex is free. -/
+theorem in_flight_spec (s : State) :
+    (inFlight s = 1 ↔ ∃ t, s.owner = some t ∧ (s.pc t = .rand ∨ ∃ k, s.pc t = .addSignal k)) ∧
+    (inFlight s ≠ 1 → inFlight s = 0) := by
+  unfold inFlight inFlightOf
+  cases ho : s.owner with
+  | none => simp
+  | some t0 =>
+    cases hp : s.pc t0 <;> simp [Pc.inFlight, hp]
+
+example : ∃ s, Reach exCfg3 s ∧ (decide (inFlight s = 1 ∧ s.owner = some 0 ∧ s.pc 0 = .addSignal (.inF 0 0))) = true :=
+  reach_of_run exCfg3 exWakeTrace _ (by decide)
+
+/-- No lost wake-up / work conservation.  In every reachable state (any n ≥ 1, any item graph, any
+interleaving, spurious wake-ups included): whenever some runner is parked in the wait set of the
+condition variable (by `parked_unsignalled`: inside `Wait()`, neither signalled nor spuriously woken),
+the number of queued items is at most the number of wake-ups under way (runners taken out of the wait
+set that have not re-acquired the mutex yet) plus the one operation in flight under the mutex
+(`in_flight_spec`). So a runner never sleeps on while an item waits for which nobody has been woken. -/
+theorem no_lost_wakeup (c : Cfg) (hn : 1 ≤ c.n) (s : State) (h : Reach c s) (t : Nat) (hpark : t ∈ s.waiters) :
+    s.todo.length ≤ s.woken.length + inFlight s :=
+  (invW_reach add_signals_when_waiting.1 hn h).conserve (List.ne_nil_of_mem hpark)
+
+/-- tight: runners 1 and 2 are parked, `Add(1)` has appended and not yet signalled — one item, no wake-up yet, one operation in flight -/
+example : ∃ s, Reach exCfg3 s ∧
+    (decide (1 ∈ s.waiters ∧ s.todo = [1] ∧ s.woken = [] ∧ inFlight s = 1)) = true :=
+  reach_of_run exCfg3 exWakeTrace _ (by decide)
+
+/-- with a spurious wake-up of runner 1 before the Signal: runner 2 still parked, one item, one wake-up under way -/
+example : ∃ s, Reach exCfg3 s ∧
+    (decide (2 ∈ s.waiters ∧ s.todo = [1] ∧ s.woken = [1] ∧ inFlight s = 1)) = true :=
+  reach_of_run exCfg3 (exWakeTrace ++ [(1, .spurious)]) _ (by decide)
+
+/-- When the mutex is free, a runner sleeps unsignalled only if at least as many wake-ups are under way as
+items are queued; in particular, if an item is queued then some OTHER runner has been woken, is still
+inside `Wait()`, and its re-acquisition of the mutex is enabled. -/
+theorem no_lost_wakeup_mutex_free (c : Cfg) (hn : 1 ≤ c.n) (s : State) (h : Reach c s) (t : Nat)
+    (hpark : t ∈ s.waiters) (hfree : s.owner = none) :
+    s.todo.length ≤ s.woken.length ∧
+    (s.todo ≠ [] → ∃ u, u ∈ s.woken ∧ u ≠ t ∧ s.pc u = .wake ∧ ∃ s', step c s u .wake = some s') := by
+  have w := invW_reach add_signals_when_waiting.1 hn h
+  have h0 := no_lost_wakeup c hn s h t hpark
+  rw [inFlight_free hfree] at h0
+  refine ⟨h0, ?_⟩
+  intro hne
+  have hl : 0 < s.todo.length := List.length_pos_iff.mpr hne
+  have hk : s.woken ≠ [] := by
+    intro e; rw [e, List.length_nil] at h0; omega
+  obtain ⟨u, hu⟩ := List.exists_mem_of_ne_nil _ hk
+  have hc := w.cntW u
+  have h1 : 0 < s.woken.count u := List.count_pos_iff.mpr hu
+  have hpc : s.pc u = .wake := by
+    apply Classical.byContradiction
+    intro hn'; simp only [hn', if_false] at hc; omega
+  refine ⟨u, hu, ?_, hpc, ?_⟩
+  · intro e; subst e
+    have h2 : 0 < s.waiters.count u := List.count_pos_iff.mpr hpark
+    split at hc <;> omega
+  · simp [step, shapeOK_true, hpc, hu, lockStep, hfree]
+
+/-- runner 2 parked, mutex free, item 1 queued, runner 1 signalled and about to re-acquire the mutex -/
+example : ∃ s, Reach exCfg3 s ∧
+    (decide (2 ∈ s.waiters ∧ s.owner = none ∧ s.todo = [1] ∧ s.woken = [1])) = true :=
+  reach_of_run exCfg3 (exWakeTrace ++ [(0, .signal (some 1)), (0, .unlock)]) _ (by decide)
 
 end GIV.C09
